@@ -42,8 +42,14 @@ from leaspy.io.data import Data, Dataset
 from leaspy.utils.weighted_tensor import WeightedTensor
 
 from ..core import Acc, CaseTimeout, digest, time_limit
-from ..models import EVENTS, INDIVIDUALS, MODEL_SPECS, NAN, build_model, cohort_frame, fresh_state, visits_frame
+from ..models import EVENTS, INDIVIDUALS, NAN, build_model, cohort_frame, fresh_state, visits_frame
+from ..models import MODEL_SPECS as _CATALOGUE_SPECS
 from ..oracle import same_tensor
+
+# the catalogue kinds + a joint model with two competing events (loaded from hand-written parameters)
+JOINT2 = "joint_d2_s1_diag_2events"
+MODEL_SPECS = dict(_CATALOGUE_SPECS, **{JOINT2: {"kind": "joint", "dim": 2, "ns": 1, "noise": "gaussian-diagonal", "ne": 2}})
+EVENT_CODES_2 = {"a": 0, "b": 2, "c": 1, "d": 0, "e": 2, "n_ob": 2, "n_oa": 1, "n_cb": 0, "n_ca": 0}
 
 ID = "C17"
 LEVEL = "exploration"
@@ -145,7 +151,7 @@ QUICK_ANNEALING = ["off", "2_plateaus", "3_plateaus"]
 
 def model_sources(tier):
     if tier == "quick":
-        return list(QUICK_MODELS) + [(MIXTURE, "loaded")]
+        return list(QUICK_MODELS) + [(JOINT2, "loaded"), (MIXTURE, "loaded")]
     out = [(n, "loaded") for n in MODEL_SPECS]
     out += [(n, "fitted") for n in FITTED]
     return out
@@ -189,6 +195,13 @@ def keeps_empty_visits(cohort):
 
 
 def plain_frame(spec, cohort):
+    df = _plain_frame(spec, cohort)
+    if _is_joint(spec) and int(spec.get("ne", 1)) == 2:
+        df["EVENT_BOOL"] = [EVENT_CODES_2[i] for i in df["ID"]]
+    return df
+
+
+def _plain_frame(spec, cohort):
     """Same table as lmc.models.cohort_frame, over the catalogue extended with the score-less individuals."""
     if not keeps_empty_visits(cohort):
         return cohort_frame(cohort, spec.get("dim", 2), joint=_is_joint(spec), binary=spec.get("noise") == "bernoulli")
@@ -205,6 +218,8 @@ def plain_frame(spec, cohort):
 
 def ingest(df, spec, keep_empty):
     kw = {"drop_full_nan": False} if keep_empty else {}
+    if _is_joint(spec) and int(spec.get("ne", 1)) != 1:
+        kw["factory_kws"] = {"nb_events": int(spec["ne"])}
     return Data.from_dataframe(df, "joint", **kw) if _is_joint(spec) else Data.from_dataframe(df, **kw)
 
 
@@ -248,6 +263,9 @@ def single_dataset(cid, name):
 
 def ingestible(spec, cohort):
     """The joint reader refuses a table without any observed event (outside this property)."""
+    if _is_joint(spec) and int(spec.get("ne", 1)) == 2:
+        # the reader wants the highest event code of the declared number of events to be present (or no event at all)
+        return any(EVENT_CODES_2[i] == 2 for i in cohort)
     return not _is_joint(spec) or any(ALL_EVENTS[i][1] for i in cohort)
 
 
